@@ -23,9 +23,25 @@ static dispatch_queue_attr_t compose(const int *order, int conc, int inactive, i
 }
 static int ran_item;
 static void tiny_item(void *c) { (void)c; ran_item++; }
+// concurrency the attribute denotes: two items of a serial queue never overlap; a concurrent queue runs a second
+// item while the first one is blocked
+static struct { int in_flight, max_in_flight, started, expect_conc; sim_event second_started; } CC;
+static void conc_item(void *c) {
+	(void)c;
+	if (++CC.in_flight > CC.max_in_flight) CC.max_in_flight = CC.in_flight;
+	// whichever of the two starts first stays inside until the other one has started (concurrent attribute) or for
+	// long enough for a second worker to show up (serial attribute)
+	if (++CC.started == 2) sim_event_signal(&CC.second_started);
+	else if (CC.expect_conc) sim_event_wait(&CC.second_started, LIVENESS_NS);
+	else { sim_point(); sim_sleep_ns(300 * USEC); }
+	sim_point();
+	CC.in_flight--;
+}
+// an axis value: the extremes of every axis are over-represented (decoding errors live at the ends of the table)
+static int axis(uint32_t n) { return g_chance(1, 3) ? (g_chance(1, 2) ? (int)n - 1 : 0) : (int)g_n(n); }
 
 static void attr_case(void) {
-	int conc = (int)g_n(2), inactive = (int)g_n(2), qi = (int)g_n(7), relpri = qi ? -(int)g_n(16) : 0, oc = (int)g_n(3), arf = (int)g_n(3);
+	int conc = (int)g_n(2), inactive = (int)g_n(2), qi = axis(7), relpri = qi ? -axis(16) : 0, oc = axis(3), arf = axis(3);
 	int o1[4] = { 0, 1, 2, 3 }, o2[4] = { 0, 1, 2, 3 };
 	for (int i = 3; i > 0; i--) { int j = (int)g_n((uint32_t)i + 1), t = o1[i]; o1[i] = o1[j]; o1[j] = t; j = (int)g_n((uint32_t)i + 1); t = o2[i]; o2[i] = o2[j]; o2[j] = t; }
 	dispatch_queue_attr_t a = compose(o1, conc, inactive, qi, relpri, oc, arf), b = compose(o2, conc, inactive, qi, relpri, oc, arf);
@@ -48,6 +64,11 @@ static void attr_case(void) {
 	}
 	dispatch_barrier_sync_f(q, NULL, tiny_item);
 	if (ran_item != 2) h_viol("attr-activity", "queue ran %d of 2 items", ran_item);
+	memset(&CC, 0, sizeof CC); CC.expect_conc = conc;
+	dispatch_async_f(q, (void *)0, conc_item); dispatch_async_f(q, (void *)1, conc_item);
+	dispatch_barrier_sync_f(q, NULL, tiny_item);
+	if (!conc && CC.max_in_flight != 1) h_viol("attr-concurrency", "two items of a queue created from a serial attribute overlapped (qos %s relpri %d overcommit %d autorelease %d inactive %d)", qos_names[qi], relpri, oc, arf, inactive);
+	if (CC.expect_conc && CC.max_in_flight != 2) h_viol("attr-concurrency", "a queue created from a concurrent attribute did not start a second item while the first was blocked (qos %s relpri %d overcommit %d autorelease %d inactive %d)", qos_names[qi], relpri, oc, arf, inactive);
 	dispatch_release(q);
 }
 
@@ -92,10 +113,7 @@ static void crash_item(void *c) {
 }
 
 static void c18_run(void) {
-	// attribute / global-queue half: a slice of the finite table per run
 	int ncases = (RC.cfg & CFG_THOROUGH) ? 48 : 16;
-	for (int i = 0; i < ncases; i++) attr_case();
-	global_queue_cases();
 	// context half
 	qgen g; qgen_defaults(&g);
 	g.oracles = O_SPECIFIC;
@@ -107,6 +125,11 @@ static void c18_run(void) {
 	g.min_clients = 2; g.max_clients = 4; g.max_ops = 7;
 	if (g_chance(1, 3)) { g.use_main = 1; g.main_tree = 1; g.qkindmask |= 1u << QK_MAIN; g.nest_pct = 60; }   // hierarchies rooted at the main queue
 	qprog_run(&g);
+	// attribute / global-queue half: a slice of the finite table per run, after the simulated part (fair scheduling,
+	// no faults: "a concurrent queue starts a second item while the first is blocked" is a progress statement)
+	sim_set_fair();
+	for (int i = 0; i < ncases; i++) attr_case();
+	global_queue_cases();
 	RES.counters[QC_ORDER_PAIRS] = attr_cases; RES.counters[QC_HIER_DEPTH_SUM] = gq_cases;
 	if (g_chance(1, 20)) {
 		// expected-crash run: the last action must be refused by the library
